@@ -51,7 +51,7 @@ OkGuillot(e) ==
     /\ (e.cat = "listed") => e.outcome = "invalid"
     /\ (e.cat = "physical") => e.outcome = "ok"
     /\ (e.outcome = "ok") => /\ e.len = e.n /\ e.nonfinite = 0 /\ e.nonpos = 0
-                             /\ (e.cat = "physical" => e.closedbad = 0)
+                             /\ e.closedbad = 0    \* counted for physical sets and for alpha outside [0,1] where the closed form stays positive
                              /\ (e.assembled => GuillotAssembled(e))
 
 Ok(e) == CASE e.ev = "range"   -> OkRange(e)
